@@ -216,8 +216,8 @@ def run_c12(ctx):
                         "chunk sums beyond 2^33 are outside the property (decryption by table lookup)"]
 
 
-SIGMA_PROTOCOLS = ["dlog", "aggregate_dlog", "dlog_eq", "com_eq", "com_eq_different_groups", "com_enc_eq", "vcom_eq", "com_lin", "com_mult", "and_dlog_com_eq", "replicate_dlog", "enc_trans"]
-SIGMA_BOUND = {"dlog", "aggregate_dlog", "com_eq", "com_eq_different_groups", "com_enc_eq", "vcom_eq", "com_mult", "and_dlog_com_eq", "replicate_dlog", "enc_trans"}
+SIGMA_PROTOCOLS = ["dlog", "aggregate_dlog", "dlog_eq", "com_eq", "com_eq_different_groups", "com_enc_eq", "vcom_eq", "com_lin", "com_mult", "and_dlog_com_eq", "replicate_dlog", "enc_trans", "com_eq_sig"]
+SIGMA_BOUND = {"dlog", "aggregate_dlog", "com_eq", "com_eq_different_groups", "com_enc_eq", "vcom_eq", "com_mult", "and_dlog_com_eq", "replicate_dlog", "enc_trans", "com_eq_sig"}
 
 
 def run_c07(ctx):
@@ -230,7 +230,7 @@ def run_c07(ctx):
     rows += [json.loads(x) for x in te.replays]
     # (b) the protocols as linear maps over a small field
     def one(p):
-        cfg = "Sigma_%s.cfg" % p if quick or p not in ("com_lin", "com_mult", "enc_trans") else "Sigma_%s_full.cfg" % p
+        cfg = "Sigma_%s.cfg" % p if quick or p not in ("com_lin", "com_mult", "enc_trans", "com_eq_sig") else "Sigma_%s_full.cfg" % p
         return p, ctx.tlc(SPEC, "Sigma.tla", cfg, name="Sigma_" + p, workers=2, timeout=6000)
     with ThreadPoolExecutor(max_workers=6) as ex:
         runs = list(ex.map(one, SIGMA_PROTOCOLS))
